@@ -36,13 +36,17 @@ import (
 )
 
 func init() {
-	sk.Register("C32.gosched", sk.Scenario{Run: func(rc *sk.RunCtx) { runGoNode(rc, "C32") }})
-	sk.Register("C28.gosched", sk.Scenario{Run: func(rc *sk.RunCtx) { runGoNode(rc, "C28") }})
-	sk.Register("C29.gosched", sk.Scenario{Run: func(rc *sk.RunCtx) { runGoNode(rc, "C29") }})
+	// HangTimeout: a task that blocks for real (a primitive that is not a lock point, held by a parked task) would
+	// otherwise stall the worker until the orchestrator's watchdog; with it the run ends as class "hang" with the
+	// blocked goroutines named. (Found once: connectionManager.relayUsedLock, since then a lock-point mutex.)
+	const ht = 60 * time.Second
+	sk.Register("C32.gosched", sk.Scenario{Run: func(rc *sk.RunCtx) { runGoNode(rc, "C32") }, HangTimeout: ht})
+	sk.Register("C28.gosched", sk.Scenario{Run: func(rc *sk.RunCtx) { runGoNode(rc, "C28") }, HangTimeout: ht})
+	sk.Register("C29.gosched", sk.Scenario{Run: func(rc *sk.RunCtx) { runGoNode(rc, "C29") }, HangTimeout: ht})
 	// C34 (deadlock half): no state oracle, the scheduler's own verdicts decide — every remaining task waiting at
 	// a lock point for a lock held by a parked task (lock-order inversion, lock taken twice) is class "deadlock",
 	// a panic in nebula code is class "panic"
-	sk.Register("C34.gosched", sk.Scenario{Run: func(rc *sk.RunCtx) { runGoNode(rc, "C34") }})
+	sk.Register("C34.gosched", sk.Scenario{Run: func(rc *sk.RunCtx) { runGoNode(rc, "C34") }, HangTimeout: ht})
 }
 
 type goNodeWorld struct {
